@@ -32,7 +32,7 @@ type splitSpec struct {
 	Lo, Hi int64
 }
 
-var splitRe = regexp.MustCompile(`^([A-Za-z_][A-Za-z0-9_]*)\s+in\s+(-?\d+)\.\.(-?\d+)$`)
+var splitRe = regexp.MustCompile(`^([A-Za-z_][A-Za-z0-9_.()*\[\]]*)\s+in\s+(-?\d+)\.\.(-?\d+)$`)
 
 func (b *Block) splits() ([]splitSpec, error) {
 	var out []splitSpec
@@ -156,6 +156,9 @@ func (v *Verifier) VerifyBlock(b *Block) []*TargetResult {
 		}
 	}
 	wg.Wait()
+	if b.Kind == "func" && len(sp) > 0 {
+		out = append(out, v.verifyOne(b, nil, -1))
+	}
 	return out
 }
 
@@ -199,9 +202,17 @@ func (v *Verifier) verifyOne(b *Block, bd map[string]int64, variant int) (tr *Ta
 	ex.frames = []*frame{root}
 	ex.pushScope()
 
-	var reqs, enss, knowns []*Clause
+	var reqs, enss, knowns, uses []*Clause
 	for _, c := range b.Clauses {
 		switch c.Kind {
+		case "use":
+			if !c.IsLoop {
+				uses = append(uses, c)
+			}
+		case "reveal":
+			for _, n := range strings.FieldsFunc(c.Text, func(r rune) bool { return r == ',' || r == ' ' }) {
+				ex.revealed[n] = true
+			}
 		case "requires":
 			reqs = append(reqs, c)
 		case "ensures":
@@ -214,6 +225,15 @@ func (v *Verifier) verifyOne(b *Block, bd map[string]int64, variant int) (tr *Ta
 		tr.KnownID = knowns[variant-1].ID
 		tr.Name += "!known:" + tr.KnownID
 		ex.target = tr.Name
+	}
+	applyUses := func(st *State, recv Value, args []Value) {
+		for _, c := range uses {
+			ex.suppress++
+			g := ex.inline(clauseFn2(v, b, c), nil, pk, nil, recv, args, st, &ast.CallExpr{}).(*Term)
+			ex.suppress--
+			ex.assume(st, g)
+			ex.usedContracts["lemma "+b.PkgName+"."+c.ID] = true
+		}
 	}
 	// carve-outs: the main variant excludes every known condition, variant k assumes condition k
 	assumeKnowns := func(st *State, recv Value, args []Value) {
@@ -233,16 +253,8 @@ func (v *Verifier) verifyOne(b *Block, bd map[string]int64, variant int) (tr *Ta
 		}
 		return fi
 	}
+	ex.binding = bd
 	mkArg := func(n string, t types.Type) Value {
-		if k, ok := bd[n]; ok {
-			w, _, isInt := intInfo(t)
-			if !isInt {
-				unsupported("split variable %s is not an integer", n)
-			}
-			val := ex.ts.BV(uint64(k), w)
-			ex.inputs = append(ex.inputs, &InputVar{Name: n, Term: val, Type: t})
-			return val
-		}
 		return ex.symbolicValue(n, t)
 	}
 	site := &ast.CallExpr{}
@@ -265,6 +277,7 @@ func (v *Verifier) verifyOne(b *Block, bd map[string]int64, variant int) (tr *Ta
 		}
 		assumeKnowns(st, nil, args)
 		nReqFacts := len(ex.facts)
+		applyUses(st, nil, args)
 		for j, c := range enss {
 			s2 := st.fork(st.pc)
 			g := ex.inline(clauseFn(c), nil, pk, nil, nil, args, s2, site).(*Term)
@@ -302,8 +315,39 @@ func (v *Verifier) verifyOne(b *Block, bd map[string]int64, variant int) (tr *Ta
 			g := ex.inline(clauseFn(c), nil, pk, nil, recv, args, st, site).(*Term)
 			ex.assume(st, g)
 		}
+		if variant == -1 {
+			// the case split must cover everything the precondition admits
+			tr.Name += "#split-covers-requires"
+			ex.target = tr.Name
+			spl, _ := b.splits()
+			for _, sp := range spl {
+				found := false
+				for _, in := range ex.inputs {
+					if in.Name != sp.Var || in.Term == nil {
+						continue
+					}
+					found = true
+					t := in.Term
+					w, signed, _ := intInfo(in.Type)
+					lo, hi := ex.ts.BV(uint64(sp.Lo), w), ex.ts.BV(uint64(sp.Hi), w)
+					var g *Term
+					if signed {
+						g = ex.ts.And(ex.ts.BVCmp(OpBVSle, lo, t), ex.ts.BVCmp(OpBVSle, t, hi))
+					} else {
+						g = ex.ts.And(ex.ts.BVCmp(OpBVUle, lo, t), ex.ts.BVCmp(OpBVUle, t, hi))
+					}
+					ex.assertNamed(st, "split."+sp.Var, g, fmt.Sprintf("requires implies %s in %d..%d", sp.Var, sp.Lo, sp.Hi))
+				}
+				if !found {
+					unsupported("split variable %s is not an input of %s", sp.Var, b.Key())
+				}
+			}
+			tr.finish(v, ex, len(ex.facts))
+			return tr
+		}
 		assumeKnowns(st, recv, args)
 		nReqFacts := len(ex.facts)
+		applyUses(st, recv, args)
 		pre := st.fork(st.pc)
 		ex.oldState = pre
 		rv := ex.inline(fi, nil, fi.Pkg, nil, recv, args, st, site)
@@ -317,6 +361,13 @@ func (v *Verifier) verifyOne(b *Block, bd map[string]int64, variant int) (tr *Ta
 		}
 		if !st.pc.IsFalse() {
 			all := append(append([]Value(nil), args...), res...)
+			if len(b.Ghosts) > 0 {
+				esig := clauseFn(enss[0]).Obj.Type().(*types.Signature)
+				for gi, g := range b.Ghosts {
+					pt := esig.Params().At(esig.Params().Len() - len(b.Ghosts) + gi).Type()
+					all = append(all, ex.symbolicValue(g[0], pt))
+				}
+			}
 			for j, c := range enss {
 				s2 := st.fork(st.pc)
 				g := ex.inline(clauseFn(c), nil, pk, nil, recv, all, s2, site).(*Term)
